@@ -12,7 +12,7 @@ G2Bits == {"vbmi2", "gfni", "vaes", "vpclmul", "vnni", "bitalg", "vpopcnt"}
 
 (* ---- closure rules (each named; listed in the evidence) ---- *)
 (* R1 SSE4.2 => SSE4.1 => SSE3          (sse level 0..3)                                   *)
-(* R2 PCLMULQDQ => SSE4.1               R3 AVX => SSE4.2          R4 AVX2 => AVX           *)
+(* R2 (dropped: PCLMULQDQ is independent of SSE4.1)  R3 AVX => SSE4.2     R4 AVX2 => AVX     *)
 (* R5 AVX512F => AVX2                   R6 DQ,CD,BW,VL => F       R7 VBMI2,BITALG => BW    *)
 (* R8 VNNI,VPOPCNTDQ => F               R9 VPCLMULQDQ => PCLMULQDQ /\ AVX   R10 VAES => AVX *)
 (* R11 GFNI => SSE4.2 (ships only on SSE4.2+ cores)                                         *)
@@ -36,7 +36,7 @@ Configs ==
     : f \in (IF avx2 THEN BOOLEAN ELSE {FALSE}) }
     : avx2 \in (IF avx THEN BOOLEAN ELSE {FALSE}) }
     : sse \in 0..3, clmul \in BOOLEAN, osx \in BOOLEAN, avx \in BOOLEAN, avoton \in BOOLEAN }
-ClosedBase(c) == (c.clmul => c.sse >= 2) /\ (c.avx => c.sse = 3)
+ClosedBase(c) == (c.avx => c.sse = 3)
 ClosedConfigs == {c \in Configs : ClosedBase(c)}
 
 (* ---- what may be executed ---- *)
